@@ -24,6 +24,7 @@ RULE = ("pairs and triples of corpus scripts (all verbs and transfer kinds) on d
         "(scripts, global event order) signatures - i.e. distinct interleavings actually observed; non-trivial = the network "
         "events of two sessions really alternate at least twice.")
 RULE += ("  " + "Also: the same transfer kind in several sessions with a suspending back end; aioftp's own client in 2-3 sessions of one process; PathIO / AsyncPathIO worlds; an account limited to two connections next to sessions that mistype its password.")
+RULE += ("  " + 'Also (round 6): accounts with differing permissions on ONE base directory (same real paths), every script read-only or refused for its account, started in either order.')
 RULE += ("  " + 'Also: a session retrying its login next to real logins of an account limited to two connections; accounts with differing permissions using the same virtual paths.')
 ASSUMPTIONS = ["MemoryPathIO back end shared by all sessions of the server (as in production: one state per server)",
                "pinned clock for file times"]
@@ -49,9 +50,27 @@ def pin_clocks():
     aioftp.server.time = _T()
 
 
+RESTRICTED = lambda: [aioftp.Permission("/"), aioftp.Permission("/dir", writable=False),  # noqa: E731
+                      aioftp.Permission("/f.bin", readable=False)]
+
+
+def prefix_of(plan, i):
+    if plan.get("shared_base"):
+        return "/srv/all"
+    return f"/srv/u{i}" if plan.get("bases") else plan["prefixes"][i]
+
+
 async def run_world(net, plan, which, cut=None):
     prefixes = plan["prefixes"]
-    if plan.get("bases"):
+    if plan.get("shared_base"):
+        # accounts with differing permissions on ONE base directory: the same virtual and real paths; every script is
+        # read-only or refused for its account, so the sessions stay independent of each other
+        n = len(plan["scripts"])
+        users = [aioftp.User(f"u{i}", None, base_path="/srv/all", **({"permissions": RESTRICTED()} if i % 2 else {})) for i in range(n)]
+        tree = {"/srv": "<DIR>", "/srv/all": "<DIR>"}
+        tree.update({f"/srv/all{k}": v for k, v in corpus_tree([""]).items()})
+        w = W.World(net, tree=tree, users=users)
+    elif plan.get("bases"):
         # different users with different base directories working on the *same* virtual paths
         n = len(plan["scripts"])
         users = [aioftp.User(f"u{i}", None, base_path=f"/srv/u{i}",
@@ -77,8 +96,8 @@ async def run_world(net, plan, which, cut=None):
             w.ctl.delay = lambda op, path, n: rng.choice(plan["backend_delay"])
         scripts = []
         for i in which:
-            sc = corpus("" if plan.get("bases") else prefixes[i])[plan["scripts"][i]]
-            if plan.get("bases"):
+            sc = corpus("" if (plan.get("bases") or plan.get("shared_base")) else prefixes[i])[plan["scripts"][i]]
+            if plan.get("bases") or plan.get("shared_base"):
                 sc = [(["login", f"u{i}"] if st == ["login"] else st) for st in sc]
             elif plan["users"][i] == "alice":
                 sc = [(["login", "alice", "secret"] if st == ["login"] else st) for st in sc]
@@ -275,7 +294,7 @@ def run_case(case):
                                           "replay_case": {"plans": [plan]}})
             # sub-tree
             out["monitors"]["tree_vs_solo"] += 1
-            p = f"/srv/u{i}" if plan.get("bases") else plan["prefixes"][i]
+            p = prefix_of(plan, i)
             sub = {k: v for k, v in tree.items() if k == p or k.startswith(p + "/")}
             ssub = {k: v for k, v in solos[i][1].items() if k == p or k.startswith(p + "/")}
             if sub != ssub:
@@ -289,7 +308,7 @@ def run_case(case):
             if path is None or port not in port2i:
                 continue
             i = port2i[port]
-            p = f"/srv/u{i}" if plan.get("bases") else plan["prefixes"][i]
+            p = prefix_of(plan, i)
             out["monitors"]["backend_prefix"] += 1
             if not (path == p or path.startswith(p + "/") or path.rstrip("/") == p):
                 out["violations"].append({"key": f"backend-call-outside-own-prefix:{op}",
@@ -370,6 +389,15 @@ def gen_cases(tier, seed):
                       "prefixes": [""] * k, "users": ["u"] * k, "offsets": [round(rng.random() * 0.006, 4) for _ in range(k)],
                       "lat": [rng.choice([0.0005, 0.001, 0.002]) for _ in range(4)], "mss": [1460, 536, 64],
                       "backend_delay": rng.choice([None, [0, 0.0006]])})
+    # accounts with differing permissions on one base directory, every script read-only or refused for its account
+    ro = ["walk", "retr_pasv", "retr_epsv_after", "retr_rest", "list", "mlsd", "mlsd_dir", "mlst", "retr_missing"]
+    denied = ["appe", "stor_rest", "retr_pasv", "mlst", "retr_rest"]     # for the restricted account (odd index)
+    for j in range(16 if tier == "quick" else 400):
+        k = 2 if j % 3 else 3
+        plans.append({"seed": seed * 911 + j, "shared_base": True, "scripts": [rng.choice(denied + ro if i % 2 else ro) for i in range(k)],
+                      "prefixes": [""] * k, "users": ["u"] * k,
+                      "offsets": [round(rng.random() * 0.006, 4) for _ in range(k)] if j % 2 else [0.004 * (k - 1 - i) for i in range(k)],
+                      "lat": [rng.choice([0.0005, 0.001, 0.002]) for _ in range(4)], "mss": [1460, 536, 64], "backend_delay": None})
     # aioftp's own client in several sessions of one process (shared class or module state shows here)
     for j in range(24 if tier == "quick" else 600):
         k = 2 if j % 3 else 3
